@@ -415,6 +415,9 @@ pub fn run(ctx: &Ctx) -> (Report, PropertyMeta) {
     report.sections.push(json!({"part": "random scripts: 1..3 peers, byte-wise delivery, recv polled k times and dropped at generated points, repeatedly", "cases": n}));
     report.merge(r);
 
+    if t == Tier::Thorough {
+        crate::fuzzing::campaign(ctx, &mut report, "sim", 180);
+    }
     let total = report.evaluations;
     health(&mut report, "cancel-after-poll-with-partial-message", total, 200);
     health_abs(&mut report, "req-send-refused-after-abandoned-recv", 200);
@@ -435,4 +438,8 @@ pub fn replay(_ctx: &Ctx, kind: &str, case: &Value) -> Vec<Failure> {
         _ => Err(vec![Failure::new("replay/unknown-kind", kind.to_string())]),
     }
     .unwrap_or_else(|e| e)
+}
+
+pub fn gen_cancel_pub(s: &mut Src<'_>) -> CancelCase {
+    gen_cancel(s)
 }
